@@ -1179,6 +1179,9 @@ enum COp {
     Remove(String),
     RemoveStorage(String),
     State(String, u32),
+    /// one handle, no flush in between: (kind, amount) with kind 0 = read n bytes, 1 = seek to
+    /// n from the start, 2 = seek back n from the current position, 3 = write n bytes
+    Edit(String, Vec<(u8, usize)>),
 }
 
 fn gen_cops(rng: &mut Rng, n: usize) -> Vec<COp> {
@@ -1203,6 +1206,20 @@ fn gen_cops(rng: &mut Rng, n: usize) -> Vec<COp> {
                 }
                 ops.push(COp::Put(p, data));
             }
+            5 if !streams.is_empty() && rng.chance(1, 2) => {
+                // read / seek back / overwrite a little / keep reading: windows of the handle's
+                // buffer are entered, dirtied and left in every order
+                let mut script = Vec::new();
+                for _ in 0..(3 + rng.below(6)) {
+                    script.push(match rng.below(8) {
+                        0 | 1 | 2 => (0u8, *rng.pick(&[1usize, 10, 100, 700, 1024, 1500, 3000, 5000])),
+                        3 => (1u8, *rng.pick(&[0usize, 1, 64, 500, 1000, 1024, 2000, 4096])),
+                        4 | 5 => (2u8, *rng.pick(&[1usize, 5, 50, 300, 1000])),
+                        _ => (3u8, *rng.pick(&[1usize, 3, 20, 100, 600])),
+                    });
+                }
+                ops.push(COp::Edit(rng.pick(&streams).clone(), script));
+            }
             5 if !streams.is_empty() => ops.push(COp::Append(rng.pick(&streams).clone(), data)),
             6 if !streams.is_empty() => ops.push(COp::SetLen(rng.pick(&streams).clone(), sz as u64)),
             7 if !streams.is_empty() => {
@@ -1220,6 +1237,44 @@ fn gen_cops(rng: &mut Rng, n: usize) -> Vec<COp> {
 fn run_cops<F: Read + Write + Seek>(comp: &mut CompoundFile<F>, ops: &[COp]) -> Vec<String> {
     let mut log = Vec::new();
     for op in ops {
+        if let COp::Edit(p, script) = op {
+            // every observation through the handle goes into the log
+            let mut line = String::from("edit");
+            match comp.open_stream(p) {
+                Err(e) => line.push_str(&format!(":err:{:?}", e.kind())),
+                Ok(mut s) => {
+                    for (k, (kind, n)) in script.iter().enumerate() {
+                        match kind {
+                            0 => {
+                                // read exactly n bytes or to the end, looping over short counts
+                                let mut got = Vec::new();
+                                let mut tmp = vec![0u8; *n];
+                                while got.len() < *n {
+                                    match s.read(&mut tmp[..*n - got.len()]) {
+                                        Ok(0) => break,
+                                        Ok(c) => got.extend_from_slice(&tmp[..c]),
+                                        Err(e) => {
+                                            line.push_str(&format!(":rerr:{:?}", e.kind()));
+                                            break;
+                                        }
+                                    }
+                                }
+                                line.push_str(&format!(":r{}={:x}", got.len(), fnv(&got)));
+                            }
+                            1 => line.push_str(&format!(":s{:?}", s.seek(SeekFrom::Start(*n as u64)).map_err(|e| e.kind()))),
+                            2 => line.push_str(&format!(":b{:?}", s.seek(SeekFrom::Current(-(*n as i64))).map_err(|e| e.kind()))),
+                            _ => {
+                                let data: Vec<u8> = (0..*n).map(|j| (0xA0 + ((j + k) % 64)) as u8).collect();
+                                line.push_str(&format!(":w{:?}", s.write_all(&data).map_err(|e| e.kind())));
+                            }
+                        }
+                    }
+                    line.push_str(&format!(":pos{:?}:len{}", s.stream_position().ok(), s.len()));
+                }
+            }
+            log.push(line);
+            continue;
+        }
         let r: std::io::Result<()> = (|| match op {
             COp::Storage(p) => comp.create_storage(p),
             COp::Put(p, d) => {
@@ -1240,6 +1295,7 @@ fn run_cops<F: Read + Write + Seek>(comp: &mut CompoundFile<F>, ops: &[COp]) -> 
             COp::Remove(p) => comp.remove_stream(p),
             COp::RemoveStorage(p) => comp.remove_storage(p),
             COp::State(p, b) => comp.set_state_bits(p, *b),
+            COp::Edit(..) => Ok(()),
         })();
         log.push(match r {
             Ok(()) => "ok".to_string(),
@@ -1555,6 +1611,35 @@ pub fn deviations(seed: u64, count: usize) -> Report {
             let id = st[r.below(st.len() as u64) as usize];
             b[pp.entry_off(id) + 100 + r.below(16) as usize] = 0x77;
             true
+        })));
+        let st = streams.clone();
+        devs.push(("both timestamps on a stream", Box::new(move |b, r| {
+            if st.is_empty() { return false; }
+            let id = st[r.below(st.len() as u64) as usize];
+            let off = pp.entry_off(id);
+            b[off + 100 + r.below(8) as usize] = 0x31;
+            b[off + 108 + r.below(8) as usize] = 0x32;
+            true
+        })));
+        let st = streams.clone();
+        devs.push(("CLSID and both timestamps on every stream", Box::new(move |b, _| {
+            for &id in st.iter() {
+                let off = pp.entry_off(id);
+                for k in 80..116 {
+                    if !(96..100).contains(&k) {
+                        b[off + k] = 0x40 | (k as u8 & 0x1F);
+                    }
+                }
+            }
+            !st.is_empty()
+        })));
+        let sg = storages.clone();
+        devs.push(("start sector and size on every storage", Box::new(move |b, _| {
+            for &id in sg.iter() {
+                wr32(b, pp.entry_off(id) + 116, 0xFFFF_FFFE);
+                wr32(b, pp.entry_off(id) + 120, 4242);
+            }
+            !sg.is_empty()
         })));
         let sg = storages.clone();
         devs.push(("start sector / size on a storage", Box::new(move |b, r| {
